@@ -433,11 +433,11 @@ impl MqttState {
         self.incoming_pub.set(pubrel.pkid as usize, false);
 
         if pubrel.reason != PubRelReason::Success {
+            // the release of a known packet id is answered with PUBCOMP whatever its reason code
             warn!(
                 "PubRel Pkid = {:?}, reason: {:?}",
                 pubrel.pkid, pubrel.reason
             );
-            return Ok(None);
         }
 
         let event = Event::Outgoing(Outgoing::PubComp(pubrel.pkid));
